@@ -179,6 +179,14 @@ def run(ctx: Ctx):
     r_models(ctx, model, tr)
     r_point(ctx, model, tr)
     ctx.analysed["models"] = CLOSED + QUAD
+    ctx.rule("S-fresh (point isotherms): the interpolated loading spreading_pressure_at uses for its last partial segment comes from an "
+             "interpolator built for the requested branch / kind / fill value, whatever an earlier query left in the cache (cache discipline of "
+             "C03, interpreted)")
+    from . import C03 as _C03
+    from ..spec_iso import all_states as _all_states, mkstate as _mkstate
+    _E3 = _C03.Engine(ctx.root, False)
+    _pres, _load, _mat, _tus = _all_states(_E3.t, False)
+    ctx.floor("cache-discipline cases", _C03.cache_discipline(ctx, _E3, _mkstate(_pres[0], _load[0], _mat[0], _tus[0]), prop="C11"), 30)
     ctx.rule("S-iso: ModelIsotherm.spreading_pressure_at evaluates the model at the pressure converted to the stored representation "
              "(every stored pressure representation x requested mode / unit; the accessor interpretation of C03 restricted to this method)")
     from .C03 import accessors_for
